@@ -492,6 +492,10 @@ pub fn escape_text(text: &str) -> String {
       c if (c as u32) < 0x20 || c == '\u{007F}' => {
         escaped.push_str(&format!("\\u{:04x}", c as u32));
       }
+      // beyond SCHAR (%x10FFFD): only expressible as an escape
+      '\u{10FFFE}' | '\u{10FFFF}' => {
+        escaped.push_str(&format!("\\u{{{:X}}}", c as u32));
+      }
       c => escaped.push(c),
     }
   }
